@@ -242,7 +242,7 @@ static void fill_signal(struct jls_signal_def_s * g, struct call_s * c) {
 }
 
 /* ------------------------------------------------------------------ scheduler state */
-enum { OP_NONE, OP_BEGIN, OP_LOCK, OP_UNLOCK, OP_CWAIT, OP_CREACQ, OP_SIGNAL, OP_SLEEP, OP_WAKE, OP_JOIN, OP_HJOIN, OP_EXIT };
+enum { OP_NONE, OP_BEGIN, OP_LOCK, OP_UNLOCK, OP_CWAIT, OP_CREACQ, OP_SIGNAL, OP_SLEEP, OP_WAKE, OP_JOIN, OP_HJOIN, OP_EXIT, OP_IO };
 #define NTH 3
 #define MAIN_TID 99
 struct th_s {
@@ -274,7 +274,7 @@ static void * (*consumer_fn_)(void *); static void * consumer_arg_;
 
 struct sched_e { int kind; /* 0 tid, 1 tid starving others, 2 tick */ int tid; long n; };
 static struct sched_e * sched_; static size_t sched_n_, sched_pos_;
-static uint64_t rng_; static uint64_t opt_seed_; static int opt_starve_, opt_big_, opt_pri_ = 1;
+static uint64_t rng_; static uint64_t opt_seed_; static int opt_starve_, opt_big_, opt_pri_ = 1, opt_wy_ = 0;
 static char opt_save_[512];
 static long chg_[8]; static int nchg_;
 
@@ -509,6 +509,25 @@ int __wrap_clock_gettime(clockid_t id, struct timespec * ts) {
     return 0;
 }
 
+/* optional complete backend write log of the threaded writer's file (for C14): TWR_WLOG=1 -> <scratch>/wlog_<case idx>.log,
+   one line per backend call in the format of the `prog` kind's logdump ("w <offset> <hex>", "t <len>", "s") */
+static FILE * wlog_f_ = NULL;
+static int wlog_idx_ = 0;
+static const char * wlog_dir_ = NULL;
+static void wlog_open(void) {
+    if (!getenv("TWR_WLOG") || wlog_f_ || !wlog_dir_) return;
+    char p[700]; snprintf(p, sizeof(p), "%s/wlog_%d.log", wlog_dir_, wlog_idx_);
+    wlog_f_ = fopen(p, "w");
+}
+static void wlog_write(int fd, const void * buf, size_t n) {
+    if (!wlog_f_) return;
+    off_t pos = lseek(fd, 0, SEEK_CUR);
+    fprintf(wlog_f_, "w %lld ", (long long) pos);
+    const uint8_t * b = (const uint8_t *) buf;
+    for (size_t i = 0; i < n; ++i) fprintf(wlog_f_, "%02x", b[i]);
+    fputc('\n', wlog_f_);
+}
+
 static void io_check(void) {
     if (managed() && consumer_alive_ && mtx_owner_[1] != my_tid_) { ++chk_race_p_; tr("%d!P", my_tid_); }
 }
@@ -518,20 +537,26 @@ int __wrap_open(const char * path, int flags, ...) {
     int fd = __real_open(path, flags, mode);
     if (fd >= 0 && g_on_ && 0 == strcmp(path, path_) && (flags & (O_RDWR | O_WRONLY))) {
         wl_fd_ = fd;
+        wlog_open();
+        if (wlog_f_ && (flags & O_TRUNC)) fprintf(wlog_f_, "t 0\n");
         if (my_tid_ >= 0) tr("%do", my_tid_);
     }
     return fd;
 }
 ssize_t __wrap_write(int fd, const void * buf, size_t n) {
     if (g_on_ && fd == wl_fd_ && my_tid_ >= 0) { io_check(); ++wl_n_; tr("%dw%zu", my_tid_, n); }
+    if (opt_wy_ && g_on_ && fd == wl_fd_ && my_tid_ >= 0) yield_op(OP_IO, 0);   /* wy=1: every backend write is a scheduling point (C14) */
+    if (g_on_ && fd == wl_fd_) wlog_write(fd, buf, n);
     return __real_write(fd, buf, n);
 }
 int __wrap_fsync(int fd) {
     if (g_on_ && fd == wl_fd_ && my_tid_ >= 0) { io_check(); ++wl_n_; ++wl_fsync_; tr("%df", my_tid_); }
+    if (g_on_ && fd == wl_fd_ && wlog_f_) fprintf(wlog_f_, "s\n");
     return __real_fsync(fd);
 }
 int __wrap_ftruncate(int fd, off_t len) {
     if (g_on_ && fd == wl_fd_ && my_tid_ >= 0) { io_check(); ++wl_n_; tr("%dt%lld", my_tid_, (long long) len); }
+    if (g_on_ && fd == wl_fd_ && wlog_f_) fprintf(wlog_f_, "t %lld\n", (long long) len);
     return __real_ftruncate(fd, len);
 }
 
@@ -720,18 +745,20 @@ static uint64_t reference(int order, size_t * len, char * snaps, size_t snaps_ca
 }
 
 static void run_case(char * line, int case_idx, const char * scratch) {
+    wlog_idx_ = case_idx; wlog_dir_ = scratch;
     char * f[5] = {0}; int nf = 0; char * s = line;
     while (nf < 5) { f[nf++] = s; char * bar = strchr(s, '|'); if (!bar) break; *bar = 0; s = bar + 1; }
     const char * name = f[0] ? f[0] : "?";
     if (nf < 5) { printf("%s BADSCRIPT END\n", name); return; }
     /* opts */
-    opt_seed_ = 0; opt_starve_ = 0; opt_big_ = 0; opt_pri_ = 1; opt_save_[0] = 0;
+    opt_seed_ = 0; opt_starve_ = 0; opt_big_ = 0; opt_pri_ = 1; opt_save_[0] = 0; opt_wy_ = 0;
     { char * save = NULL;
       for (char * o = strtok_r(f[1], " \t", &save); o; o = strtok_r(NULL, " \t", &save)) {
         if (0 == strncmp(o, "seed=", 5)) opt_seed_ = strtoull(o + 5, NULL, 10);
         else if (0 == strncmp(o, "starve=", 7)) opt_starve_ = atoi(o + 7);
         else if (0 == strncmp(o, "big=", 4)) opt_big_ = atoi(o + 4);
         else if (0 == strncmp(o, "pri=", 4)) opt_pri_ = atoi(o + 4);
+        else if (0 == strncmp(o, "wy=", 3)) opt_wy_ = atoi(o + 3);
         else if (0 == strncmp(o, "maxsteps=", 9)) g_max_steps_ = atol(o + 9);
         else if (0 == strncmp(o, "save=", 5)) snprintf(opt_save_, sizeof(opt_save_), "%s", o + 5);
       } }
@@ -798,6 +825,7 @@ static void run_case(char * line, int case_idx, const char * scratch) {
       if (c->done) printf(" cl=%d:%zu:%d", (int) c->rc, c->wpos, c->napplied); else printf(" cl=-"); }
     size_t flen = 0, rlen = 0, slen = 0;
     uint64_t fh = file_hash(path_, &flen);
+    if (wlog_f_) { fclose(wlog_f_); wlog_f_ = NULL; }
     printf(" file=%zu:%016" PRIx64, flen, fh);
     { /* file header length field (offset 16) and the tag byte of the last 32-byte chunk header */
       uint64_t hl = 0; uint8_t tag = 0; int fd = __real_open(path_, O_RDONLY, 0);
